@@ -101,6 +101,7 @@ func (sh *blobShape) lenOf(x ssa.Value, recv *ssa.Parameter) string {
 }
 
 func runC19(c *core.Ctx) {
+	runFixtures(c, "bounds", "locks")
 	c.Explain("Structural clauses of C19 decided from source: (R19.1) every slice/make whose bounds depend on a parameter in a slice-backed Blob method is entailed safe by the dominating comparisons (difference-constraint closure), and every int64 parameter of View/Slice/Set/Grow/Truncate has a 'negative => error' guard dominating all mutations; (R19.2) View/Slice select receiver data by [start:end]; (R19.3) View aliases (shares array and mutex), Slice copies into a fresh allocation; (R19.4) no interface dispatch / re-locking call while the blob mutex may be held; (R19.5) every store to the data field is followed by the atomic length mirror in the same block; (R19.6) in the js/wasm typed-array Blob every value written to the mirrored length is non-negative by guards or was accepted by a typed-array allocation (guard-set differences to blob.Bytes are listed as information only: the JS engine clamps or validates the rest), and View/Slice use subarray/slice(start,end). NOT claimed: byte-exact equality with a []byte model over operation sequences, aliasing after Grow reallocates, behaviour of the JS engine.")
 	c.Assume("A5: all length reads of one receiver inside one method denote one value (sequential reading; concurrent resize between check and use is C15's matter)",
 		"A2: stdlib (sync, sync/atomic, builtin copy/append) behaves as documented; int64->int conversions do not truncate (64-bit int; the 386 target is type-checked in the thorough tier only)")
@@ -825,6 +826,21 @@ func r19Sibling(c *core.Ctx, p *load.Program, sh *blobShape, ref map[string][]st
 					okArgs = variadicArgsAre(cl.Call.Args[2], fn.Params[1], fn.Params[2])
 				}
 			})
+			// the cached Go bytes of the result follow the same discipline: View -> View (alias), Slice -> Slice (copy)
+			other := map[string]string{"View": "Slice", "Slice": "View"}[mn]
+			wrongCache := ""
+			ssax.Instrs(fn, func(ins ssa.Instruction) {
+				if cl, ok := ins.(*ssa.Call); ok {
+					if callee := ssax.StaticCallee(cl); callee != nil && callee.Name() == other && callee.Signature.Recv() != nil && strings.HasSuffix(typeString(callee.Signature.Recv().Type()), "blob.Bytes") {
+						wrongCache = p.Pos(cl.Pos())
+					}
+				}
+			})
+			if wrongCache != "" {
+				c.Bad("R19.3", key+"-cache", p.Pos(fn.Pos()), fmt.Sprintf("%s builds the cached Go bytes of its result with Bytes.%s at %s: a %s must %s the cached bytes too, otherwise writes show through (or fail to) once Bytes() has been called", fname(fn), other, wrongCache, strings.ToLower(mn), map[string]string{"View": "alias", "Slice": "copy"}[mn]))
+			} else {
+				c.OK("R19.3", key+"-cache", p.Pos(fn.Pos()), "cached Go bytes built with the same-named operation")
+			}
 			if found && okArgs {
 				c.OK("R19.3", key, p.Pos(fn.Pos()), fmt.Sprintf("result selected by JS %s(start, end)", want))
 			} else {
